@@ -4,6 +4,7 @@ CONSTANTS
   Home <- MCHome
   TaskIds = {"t1"}
   Payloads = {"x", "y"}
+  Auto = {"c2"}
   QCap = 2
 SPECIFICATION Spec
 CONSTRAINT Small
